@@ -7,7 +7,7 @@ for d in sorted(glob.glob('/verif/seeded/*/')):
     det = m.get('detection_quick', {})
     caught = ", ".join("%s (%s)" % (c, (v['first_lines'][1].split('sub-property=')[1].split(' ')[0] if len(v.get('first_lines', [])) > 1 and 'sub-property=' in v['first_lines'][1] else 'exit %d' % v['exit'])) for c, v in det.items() if v['exit'] == 1)
     rows.append((m['id'], (m.get('summary') or '')[:230].replace('|', '/').replace('\n', ' '), (m.get('needs') or '')[:200].replace('|', '/').replace('\n', ' '),
-                 'yes' if m['confirmation'].get('confirmed') else 'no', caught or ('—' if not m['confirmation'].get('confirmed') else 'MISSED'), m.get('confirmed_against_repo_commit', '')))
+                 'yes' if m['confirmation'].get('confirmed') else 'no', ('outside the statement (needs caller-side mutation of a returned container); not counted' if m.get('classification') == 'outside-statement' else caught or ('—' if not m['confirmation'].get('confirmed') else 'MISSED')), m.get('confirmed_against_repo_commit', '')))
 out = ["# Seeded changes (written by independent sub-agents from the property text alone)\n",
        "Each directory holds `patch.diff` (never committed to /repo), the agent's demonstration `demo_test.go` and `meta.json` "
        "(what was run to confirm it: demo passes on the clean tree, patch applies/builds, existing suite passes with it, demo fails with it; "
